@@ -59,6 +59,8 @@ var paramTable = map[string]paramSpec{
 	"SIZE=num":        {text: "SIZE=500", mail: func(o *smtp.MailOptions) { o.Size = 500 }},
 	"SIZE=over":       {text: "SIZE=2000", mail: func(o *smtp.MailOptions) { o.Size = 2000 }},
 	"SIZE=junk":       {text: "SIZE=12x"},
+	"SIZE=big":        {text: "SIZE=4294967295", mail: func(o *smtp.MailOptions) { o.Size = 4294967295 }},
+	"SIZE=signed":     {text: "SIZE=-5"},
 	"BODY=7BIT":       {text: "BODY=7BIT", mail: func(o *smtp.MailOptions) { o.Body = smtp.Body7Bit }},
 	"BODY=8BITMIME":   {text: "body=8bitmime", mail: func(o *smtp.MailOptions) { o.Body = smtp.Body8BitMIME }},
 	"BODY=BINARYMIME": {text: "BODY=BINARYMIME", mail: func(o *smtp.MailOptions) { o.Body = smtp.BodyBinaryMIME }},
